@@ -118,11 +118,12 @@ def run(ctx):
             pts.append([x, y])
         if rng.random() < 0.012:
             # a long run of removable vertices (70-160 on one line, some repeated) followed by an excursion far outside any tolerance
-            n_run = rng.randint(70, 160)
-            dx, dy = rng.choice([(1, 0), (0, 1), (1, 1), (2, 1)])
+            # (sizes chosen so that the judge's squared cross products stay inside TLC's 32-bit integers even when everything is deleted)
+            n_run = rng.randint(70, 90)
+            dx, dy = rng.choice([(1, 0), (0, 1), (1, 1)])
             pts = [[k * dx, k * dy] for k in range(n_run)]
             px, py = pts[-1]
-            pts += [[px - 50 * dy + dx, py + 50 * dx + dy], [px + 2 * dx, py + 2 * dy]] + [[px + (3 + k) * dx, py + (3 + k) * dy] for k in range(rng.randint(0, 5))]
+            pts += [[px - 20 * dy + dx, py + 20 * dx + dy], [px + 2 * dx, py + 2 * dy]] + [[px + (3 + k) * dx, py + (3 + k) * dy] for k in range(rng.randint(0, 3))]
             L = len(pts)
         sg = rng.choice([1, 1, 1, 1, 1, 1, 0, -1])
         tn = rng.choice([1, 3, 5, 11, 23, 47, 95, 200, 450, 1500])
